@@ -144,7 +144,7 @@ Proof.
   rewrite path_eqb_sym. destruct (path_eqb k p); simpl; [discriminate|auto].
 Qed.
 
-Lemma spaceD_eta s : mkS (s_cells s) (s_refs s) (s_bases s) (s_namer s) = s.
+Lemma spaceD_eta s : mkS (s_cells s) (s_refs s) (s_bases s) (s_namer s) (s_params s) = s.
 Proof. destruct s; reflexivity. Qed.
 
 Lemma state_eta st : mkSt (st_spaces st) (st_grefs st) = st.
